@@ -116,6 +116,13 @@ def multiple : List Err → Outcome Err
   | [e] => .ok e
   | es => .ok (multi es [] none)
 
+/-- `Err(Error::multiple(errors))` as the failing arm of `Accumulator::finish_with` -/
+def bundleErr {α : Type} (errs : List Err) : Outcome α :=
+  match multiple errs with
+  | .ok e => .err e
+  | .err e => .err e
+  | .panic m => .panic m
+
 /-- `Error::at`: `self.locations.insert(0, location)` -/
 def «at» (e : Err) (l : String) : Err :=
   match e with
